@@ -992,6 +992,36 @@ def eval_objects(ctx, impl, cases, count=False):
             ctx.kind(f"obj:{akind}:" + ("accepted" if ok else "refused"))
             if ok or label != "mixed":
                 ctx.nontrivial((akind, repr(p)))
+    # reassigned fields: an object built from case i whose public attributes are then set to those of case j (same class) must
+    # encode like case j (oracle: the model's `mk` of case j) - `.pdu` reads the fields, it is not a snapshot of construction time
+    prev = {}
+    for j, ((akind, p, label), r, m) in enumerate(zip(cases, results, out)):
+        if r["status"] != "ok" or not m.startswith("ok "):
+            continue
+        i = prev.get(r["cls"])
+        prev[r["cls"]] = j
+        if i is None or results[i]["pdu"] == r["pdu"]:
+            continue
+        try:
+            a = impl.construct(cases[i][0], cases[i][1], False)
+            b = impl.construct(akind, p, False)
+            pub = [k for k in vars(b) if not k.startswith("_")]
+            if type(a) is not type(b) or set(vars(a)) != set(vars(b)) or not pub:
+                continue
+            for k in pub:  # the documented fields only; private attributes are the object's own business
+                setattr(a, k, getattr(b, k))
+            got = bytes(a.pdu)
+        except Exception:  # noqa: BLE001 - only plain attribute objects are probed
+            continue
+        m_hex = m.split(" ", 2)[1]
+        if got.hex() != m_hex:
+            case = {"direction": "object->bytes", "kind": akind, "class": r["cls"], "params": jparams(p), "varied": label,
+                    "_size": size_of(p), "built_from": jparams(cases[i][1])}
+            fs[j].add(f"stale-pdu:{r['cls']}", f"{r['cls']} built from {cases[i][1]!r:.80}, public fields then set to those of "
+                      f"{r['cls']}({p!r:.80}): .pdu is {got.hex()[:60]} but the oracle encodes {m_hex[:60]}",
+                      case, impl={"pdu": got.hex()}, model={"pdu": m_hex}, site=f"{r['cls']}.pdu")
+        if count:
+            ctx.kind("obj:reassigned-fields")
     return fs, out, results
 
 
